@@ -1334,12 +1334,17 @@ def gen_ilv_case(rng):
         for _ in range(rng.randint(1, 3)):
             ti = rng.randrange(len(descs))
             if rng.random() < 0.5:
+                # new limits, while no print of that table is being consumed (set_limits forgets the widths: a lazy
+                # print still in progress would meet columns without width - see the report): before its first
+                # iterator is advanced
                 ev = "L%d:%s:%s" % (ti, rng.choice(["n", 0, 1, 2, 5]), rng.choice(["n", 0, 1, 3]))
+                firsts = [k for k, x in enumerate(sched) if not isinstance(x, str) and x < len(iters) and iters[x] == ti]
+                sched.insert(rng.randint(0, firsts[0] if firsts else len(sched)), ev)
             else:
                 rec = gen_records_like(rng, descs[ti], 1)[0]
                 rec = [v if not isinstance(v, str) else v + "wider" * rng.randint(0, 3) for v in rec]
                 ev = "A%d:%s" % (ti, "+".join(enc_val(v) for v in rec))
-            sched.insert(rng.randint(0, min(len(sched), 12)), ev)
+                sched.insert(rng.randint(0, min(len(sched), 12)), ev)
     return mk_ilv_case(descs, iters, sched)
 
 
@@ -1701,7 +1706,8 @@ RULE = ("tables: 1-4 fields (one of them an enum in 40%), 0-12 records of mixed 
         "printed table (zero and min=max bounds) then print; field-less tables; malformed formats/fields/records; tables built with fmt_obj= (format "
         "of another fresh/printed table or PPTableFormat.make, mostly asymmetric limits, other records); 2-4 line "
         "iterators over 1-3 tables (also two over one table) advanced in a random or zip-like interleaving, in half "
-        "of the cases with set_limits on the live format / records appended in between and zero-width columns, each "
+        "of the cases with records appended in between (and set_limits before the table's first iterator starts) and "
+        "zero-width columns, each "
         "judged against its own table as it is when the iterator starts; two siblings from one format object, the "
         "second with its own limits=/skip_columns=, the first and the donor printed again afterwards; fit_to_width/resize_chunks_list "
         "called directly (diagnostic lines). non-trivial = a table with at least one record or a rejected one; "
@@ -1743,6 +1749,8 @@ LEVEL_NOTE = ("Trusted: Lean kernel, translator (constants of ak/ppobj.py regene
               "harness/c12.py, sampled correspondence. Colours are not modelled (all chunks plain: no_color=True; "
               "C08-C10 cover colours). C12.limits assumes natural-number limits; negative limits are modelled (Python "
               "slicing) and tied but not covered. Tie only: enhanced formats (value paths) are not modelled. The generator laziness of gen_ch_lines is "
-              "modelled as 'all work at the first next()', which the interleaved tie validates.")
+              "modelled as 'all work at the first next()', which the interleaved tie validates; set_limits on a table "
+              "whose lines are still being consumed is not modelled (since 1d22ea8 the lazy print then meets columns "
+              "without width: TypeError - reported).")
 TECHNIQUE = ("Lean 4 theorems over an executable model of the table printer built on the CHText model + constant "
              "translator + differential run (single tables, fmt_obj tables, interleaved iterators)")
